@@ -3,19 +3,21 @@
   `harness/src/bin/c17.rs` and prints the same token sequence.
 
   Families
-  * `str`  args: `<na> <stop cp | -1> A <advice…> S <code points…>`
+  * `str`  args: `<na> <stop cp | -1> S <code points…>`
   * `blk`  args: `<na> <stop cp | -1> <len> <prefix symbol indices…>`: every string of length `len`
            over the 16-symbol alphabet starting with the prefix, one `|`-joined token per string.
 
   Numbers: the value of a lexeme is its correctly rounded (nearest-even) binary32 value, computed
   here with exact `Nat` arithmetic (what `f32::from_str` does); `+`/`-` are `Float32` operations;
   `is_straight_line` is evaluated exactly (`|r| ≤ 1e-4`, `from == to`).
-  Arcs that are not straight lines: the number of quadratic segments lyon's arc conversion
-  yields (or that it panics) is not modelled; it is read from the `advice` the harness observed
-  (`<consumed>:<k>` / `<consumed>:p`), and those segments are printed as `aQ@n` without values.
+  Arcs: `is_straight_line`, `Arc::from_svg_arc` and `arc_to_quadratic_beziers_with_t` are the
+  model of C13 (`Model/Geom/SvgArc.lean`, imported, run at `Float32`); `Angle::degrees(x)` is
+  `x * (PI / 180)` (`f32::to_radians`).  The quadratic calls of an arc are predicted with all
+  their values.
 -/
 import LyonVerif.Drive.Common
 import LyonVerif.Model.Parser
+import LyonVerif.Model.Geom.SvgArc
 
 namespace Lyon.Drive.C17
 open Lyon Lyon.Drive Lyon.Parser Lyon.Path
@@ -66,31 +68,27 @@ def f32OfLexeme (l : List Char) : Float32 :=
 
 /-! ### the `Num` instance used by the tie -/
 
-structure Advice where
-  total : Nat
-  /-- (consumed count, `none` = panic | `some k` quads) -/
-  items : List (Nat × Option Nat)
-
 def consumedOf (total rem : Nat) : Nat := if rem == 0 then total else total - rem + 1
 
-def absLe (x : Float32) (eps : Float32) : Bool := x.abs ≤ eps
+/-- `f32::to_radians`: `self * (consts::PI / 180.0)` -/
+def toRadians (x : Float32) : Float32 := x * ((Transc.pi : Float32) / 180)
 
-def f32Eps : Float32 := f32OfLexeme "1e-4".toList
+def svgArcOf (a : ArcArgs Float32) : SvgArc Float32 :=
+  { from_ := ⟨a.from_.1, a.from_.2⟩, to := ⟨a.to.1, a.to.2⟩, radii := ⟨a.rx, a.ry⟩,
+    xrot := toRadians a.rot, large := a.large, sweep := a.sweep }
 
-def numF32 (na : Nat) (adv : Advice) : Num Float32 where
+def numF32 : Num Float32 where
   zero := 0
+  one := 1
   add := (· + ·)
   sub := (· - ·)
+  mul := (· * ·)
   ofLexeme := f32OfLexeme
-  arcStraight := fun a =>
-    absLe a.rx f32Eps || absLe a.ry f32Eps || (a.from_.1 == a.to.1 && a.from_.2 == a.to.2)
-  arc := fun rem _ =>
-    match adv.items.find? (fun it => it.1 == consumedOf adv.total rem) with
-    | none => some []
-    | some (_, none) => none
-    | some (_, some k) =>
-      -- placeholder segments, recognisable by an attribute list of impossible length
-      some (List.replicate k ((0, 0), (0, 0), List.replicate (na + 1) 0))
+  arcStraight := fun a => ArcConv.isStraightLine (svgArcOf a)
+  arc := fun _ a =>
+    if ArcConv.bezPanics (ArcConv.fromSvgArc (svgArcOf a)) then none
+    else some ((ArcConv.quadsWithT (ArcConv.fromSvgArc (svgArcOf a))).map
+      (fun q => ((q.1.c.x, q.1.c.y), (q.1.b.x, q.1.b.y), q.2.2)))
 
 /-! ### printing -/
 
@@ -98,13 +96,12 @@ def hexF (x : Float32) : String := if x.isNaN then "~7fc00000" else fx x
 
 def fPt (p : Pt Float32) : List String := [hexF p.1, hexF p.2]
 
-def fCall (na total : Nat) (e : Emit Float32) : List String :=
+def fCall (total : Nat) (e : Emit Float32) : List String :=
   let at_ := "@" ++ toString (consumedOf total e.1)
   match e.2 with
   | .begin p a => ("B" ++ at_) :: fPt p ++ a.map hexF
   | .line p a => ("L" ++ at_) :: fPt p ++ a.map hexF
-  | .quad c p a =>
-    if a.length == na + 1 then ["aQ" ++ at_] else ("Q" ++ at_) :: fPt c ++ fPt p ++ a.map hexF
+  | .quad c p a => ("Q" ++ at_) :: fPt c ++ fPt p ++ a.map hexF
   | .cubic c1 c2 p a => ("C" ++ at_) :: fPt c1 ++ fPt c2 ++ fPt p ++ a.map hexF
   | .end_ true => ["E1" ++ at_]
   | .end_ false => ["E0" ++ at_]
@@ -120,38 +117,26 @@ def fOutcome : Outcome → List String
   | .panic => ["arcpanic"]
   | .stuck => ["stuck"]
 
-def fResult (na total : Nat) (r : Result Float32) : List String :=
+def fResult (_na total : Nat) (r : Result Float32) : List String :=
   fOutcome r.outcome ++
     ["end", toString r.final.line, toString r.final.col, toString (consumedOf total r.final.inp.length),
      "calls", toString r.calls.length] ++
-    (r.calls.map (fCall na total)).flatten
+    (r.calls.map (fCall total)).flatten
 
-def runOne (na : Nat) (stop : Option Char) (adv : List (Nat × Option Nat)) (inp : List Char) :
-    List String :=
-  fResult na inp.length (parse (numF32 na ⟨inp.length, adv⟩) na stop inp)
+def runOne (na : Nat) (stop : Option Char) (inp : List Char) : List String :=
+  fResult na inp.length (parse numF32 na stop inp)
 
 def rdStop (s : String) : Option Char :=
   match s.toNat? with
   | some n => some (Char.ofNat n)
   | none => none
 
-def rdAdvice (s : String) : Option (Nat × Option Nat) :=
-  match s.splitOn ":" with
-  | [a, b] =>
-    match a.toNat? with
-    | none => none
-    | some n => if b == "p" then some (n, none) else (b.toNat?).map (fun k => (n, some k))
-  | _ => none
-
 def strFamily (v : Array String) : String :=
   let na := rdNat v 0
   let stop := rdStop (v.getD 1 "-1")
-  let rest := (v.toList.drop 2)
-  let advToks := (rest.drop 1).takeWhile (· != "S")
-  let cps := (rest.dropWhile (· != "S")).drop 1
-  let adv := advToks.filterMap rdAdvice
+  let cps := ((v.toList.drop 2).dropWhile (· != "S")).drop 1
   let inp := cps.map (fun t => Char.ofNat ((t.toNat?).getD 0))
-  unwords (runOne na stop adv inp)
+  unwords (runOne na stop inp)
 
 /-- the 16-symbol token alphabet of the exhaustive stream (same order as the harness) -/
 def alphabet : Array Char :=
@@ -168,7 +153,7 @@ def blkFamily (v : Array String) : String :=
   let len := rdNat v 2
   let prefix_ := (v.toList.drop 3).map (fun t => alphabet.getD ((t.toNat?).getD 0) ' ')
   let tails := allStrings (len - prefix_.length)
-  unwords (tails.map (fun t => "|".intercalate (runOne na stop [] (prefix_ ++ t))))
+  unwords (tails.map (fun t => "|".intercalate (runOne na stop (prefix_ ++ t))))
 
 def families : List Family := [Family.plain "str" strFamily, Family.plain "blk" blkFamily]
 
